@@ -307,6 +307,16 @@ def check_raii(ctx, tu, info, mut):
         elif si.acquires:
             ctx.ob('C09.R', f, 'mutexes are locked only through scope objects', True, key_detail='bare lock')
     for f in tu.fns:
+        if f.outermost().skey.split('::')[0] in ('EventQueueBase', 'HeterEventQueueBase'):
+            for w in info.writes(f):
+                if w['path'][-1:] == ('.queueEmptyCounter',) and w['how'] in ('++', '--', '+=', '-=', 'assign', 'call:store', 'call:exchange', 'call:fetch_add', 'call:fetch_sub'):
+                    ctx.ob('C09.R', f, 'the in-dispatch counter is changed only through CounterGuard (restored during unwinding)', False,
+                           detail='manual %s at %s: an exception thrown by a listener, filter or predicate between the increment and the decrement leaves the '
+                                  'counter raised for ever (emptyQueue() stays false, waiters never block)' % (w['how'], f.nloc(w['node'])),
+                           where=f.nloc(w['node']), key_detail='manual counter')
+                elif w['path'][-1:] == ('.queueEmptyCounter',) and w['how'] == 'guard':
+                    ctx.ob('C09.R', f, 'the in-dispatch counter is changed only through CounterGuard (restored during unwinding)', True, key_detail='manual counter')
+    for f in tu.fns:
         if f.skey in TRAVERSAL_FNS:
             ws = [w for w in mut.observable_writes(f)]
             ctx.ob('C09.R', f, 'traversal / dispatch writes no container state (an escaping exception leaves the lists as the callbacks left them)',
